@@ -34,7 +34,7 @@ CHECKS = {
    "For every workload and codec, every index k of the failing sink Write call, six fault kinds (nothing / half / all of the bytes accepted, transient or sticky; pairs in thorough): the API call during which it failed must return an error.",
    "The caller abandons the writer after the first error.", "4/C09"),
  "C10": ("fault_enumeration", "exhaustive enumeration of the failing source call index",
-   "For every workload and codec, every index k of the failing Read/Seek/ReadByte call, three error kinds, transient/sticky/with-data (pairs in thorough): error reported or all rows correct, never a panic.",
+   "For every workload and codec, every index k of the failing Read/Seek/ReadByte call, four error kinds (sentinel, io.EOF, io.ErrUnexpectedEOF, a Temporary()/Timeout() error), transient/sticky/with-data (pairs in thorough): error reported or all rows correct, never a panic.",
    "Rows delivered before a reported error are not judged.", "4/C10"),
  "C11": ("fault_enumeration", "exhaustive enumeration of truncation points",
    "Every strict prefix of every workload file (incl. zero-row-group and one-record files, and files whose data embeds a footer image followed by its length so that some prefixes end like a complete file without the magic) is opened and iterated, and for a grid of (row groups x rows in the last row group) every cut inside the last 12 bytes: an error must be reported, no panic.",
